@@ -12,6 +12,26 @@ pub fn meta(_t: Tier) -> Meta {
 pub fn run(ctx: &Ctx) -> Report {
     let mut r = Report::new();
     let cons = consensus(&WorldOpts::default());
+    if std::env::var("BOOTPROBE").is_ok() {
+        for i in 0..10 {
+            let t = std::time::Instant::now();
+            let dir = ctx.scratch.join(format!("bp{i}"));
+            let node = Node::boot(&dir, &NodeOpts::new(cons.clone())).expect("boot");
+            let t1 = t.elapsed();
+            node.wait_startup().unwrap();
+            let t2 = t.elapsed();
+            node.shutdown();
+            println!("boot {:?} startup {:?} shutdown {:?}", t1, t2, t.elapsed());
+            let t = std::time::Instant::now();
+            let node = Node::boot(&dir, &NodeOpts::new(cons.clone())).expect("boot");
+            node.wait_startup().unwrap();
+            let t1 = t.elapsed();
+            node.shutdown();
+            println!("   reopen {:?} shutdown {:?}", t1, t.elapsed());
+        }
+        r.outcomes.insert(1); r.outcomes.insert(2);
+        return r;
+    }
     let t0 = std::time::Instant::now();
     set_time(time_for_height(0));
     let node = Node::boot(&ctx.scratch.join("smoke"), &NodeOpts::new(cons.clone()).with_pool()).expect("boot");
